@@ -1,6 +1,6 @@
 (* C09 — subsets and cross-sections are faithful restrictions. Statements only. *)
 From Coq Require Import Sorting.Sorted Permutation.
-From Verif Require Import Base C02 C02_sup C09 C09_proofs C09_commute_proofs C09_edges C09_edge_table_proofs.
+From Verif Require Import Base C02 C02_sup C09 C09_proofs C09_commute_proofs C09_edges C09_edge_table_proofs C03 C09_C03_proofs.
 
 (* face k of the subset is source face idx[k]: reading its row back through the recorded node
    indices gives the source row (same corners, same cyclic order and start, same padding) *)
@@ -87,3 +87,24 @@ Theorem C09_carried_edge_table_kept : forall m T idx, std_table m T ->
   sup_accepts (fst (c09_slice_faces T idx)) (fst (c09_slice_edge_table T m idx)) = true.
 Proof. exact slice_edge_table_accepted. Qed.
 Print Assumptions C09_carried_edge_table_kept.
+
+(* ---- node / edge selections through the whole pipeline (C03's derived incidence tables feeding the selection) ---- *)
+
+(* selecting nodes: exactly the faces having a selected node as a corner *)
+Theorem C09_node_selection_pipeline : forall t n idx f,
+  Forall (fun v => 0 <= v < Z.of_nat n) idx ->
+  (In f (c09_faces_touching (c03_node_faces t n) idx) <->
+   exists v i r, In v idx /\ nth_error t i = Some r /\ f = Z.of_nat i /\ In v r).
+Proof. exact node_selection_pipeline. Qed.
+Print Assumptions C09_node_selection_pipeline.
+
+(* selecting edges on a manifold grid: exactly the faces having a selected edge among their consecutive corner pairs *)
+Theorem C09_edge_selection_pipeline : forall m t idx f, std_table m t ->
+  let FE := face_edges t m in let NPF := n_nodes_per_face t in let n := length (edges t) in
+  (forall e, (e < n)%nat -> (length (c03_occ FE NPF e) <= 2)%nat) ->
+  Forall (fun e => 0 <= e < Z.of_nat n) idx ->
+  (In f (c09_faces_touching (ef_table (c03_edge_faces FE NPF n)) idx) <->
+   exists e i r q, In e idx /\ nth_error t i = Some r /\ f = Z.of_nat i /\ In q (cyc_pairs (corners r)) /\
+                   nth_error (edges t) (Z.to_nat e) = Some (norm_pair q)).
+Proof. exact edge_selection_pipeline. Qed.
+Print Assumptions C09_edge_selection_pipeline.
